@@ -61,7 +61,7 @@ CLAIMS = {
     "C09": ("model_checking",
             "explicit-state search over the real SpaceKeeper under a quiescence-based controlled scheduler (plotter gates H3, fake plot database); all action orders with canonical-state pruning",
             "qsched",
-            "Real capacity.SpaceKeeper with 1-2 (thorough 3) workspaces in registered/ready initial states and a fake plot database; actions = plot/mine/stop/remove/delete per workspace and bulk forms (operation budget 2-3 quick / 3-4 thorough; one scenario of repeated plot/mine/stop requests for a single space with budget 4/5), release of each of the six plotter gates, plot completion/abort; every order explored (BFS, canonical state incl. queue, popped item, channel content, gates, pending calls, sticky-stop monitor). In every quiescent state: exactly-one-state and index consistency, at most one plotting, the 16 flag filters agree across WorkSpaceIDs/WorkSpaceInfos/states, GetProofs(mining) offers exactly the used mining spaces; every state change is a documented edge for the action taken; refused remove/delete change nothing; a stopped space does not enter plotting/mining (nor complete its plot) until asked again. Open findings: stop does not cancel outstanding requests (5 fingerprints).",
+            "Real capacity.SpaceKeeper with 1-2 (thorough 3) workspaces in registered/ready initial states and a fake plot database; actions = plot/mine/stop/remove/delete per workspace and bulk forms (operation budget 2-3 quick / 3-4 thorough; one scenario of repeated plot/mine/stop requests for a single space with budget 4/5), release of each of the six plotter gates, plot completion/abort; every order explored (BFS, canonical state incl. queue, popped item, channel content, gates, pending calls, sticky-stop monitor). In every quiescent state: exactly-one-state and index consistency, at most one plotting, the 16 flag filters agree across WorkSpaceIDs/WorkSpaceInfos/states, GetProofs(mining) offers exactly the used mining spaces; every state change is a documented edge for the action taken; refused remove/delete change nothing; a stopped space does not enter plotting/mining (nor complete its plot) until asked again. Fixed finding (a3d9db0): a stop did not cancel outstanding plot/mine requests (6 fingerprints, both keepers).",
             "API bodies are atomic under stateLock and the plotter's steps 1/3 hold it, so gate granularity covers every order observable through states; unsynchronised accesses between gates are not enumerated. Part skchia: the engine-v2 keeper over a fake MassDB, configured through the real ConfigureByFlags; the production-reachable family (all spaces Ready; 2-3 spaces; cfg none/plot/mine) is searched to a fixed point of the canonical state and decides; histories from Registered spaces (not constructible in skchia) are explored as diagnostics only",
             "DESIGN.md §C09"),
     "C13": ("model_checking",
